@@ -99,6 +99,8 @@ def main():
     pid = a.pid.upper()
     tier = a.tier if a.tier in ('quick', 'thorough') else 'quick'
     os.environ['VERIF_TIER_EFFECTIVE'] = tier
+    if tier == 'thorough' and not os.environ.get('VERIF_DIFF_RATE'):
+        os.environ['VERIF_DIFF_RATE'] = '0.002'     # sampled second opinion from cvc5
     seed = int(os.environ.get('VERIF_SEED', '0') or 0)
     t0 = time.time()
     mod = importlib.import_module('harness.' + pid.lower())
@@ -189,6 +191,10 @@ def main():
     for r in inconc[:20]:
         print('INCONCLUSIVE property=%s reason=%s' % (pid, r))
     ev = res['evidence']
+    ev.setdefault('coverage', {})['second_solver'] = {
+        'cvc5_queries_agreeing': ex.GLOBAL_STATS['cvc5_agreed'], 'cvc5_queries_not_comparable': ex.GLOBAL_STATS['cvc5_skipped'],
+        'sampling_rate': float(os.environ.get('VERIF_DIFF_RATE', '0') or 0),
+        'explorations': ex.GLOBAL_STATS['explorations'], 'explorations_truncated_by_budget': ex.GLOBAL_STATS['truncated']}
     ev.update({'property_id': pid, 'tier': tier, 'seed': seed, 'level': 'model_checking',
                'wall_s': round(time.time() - t0, 2), 'violations': len(new),
                'known_findings_seen': sorted(seen_known), 'inconclusive': inconc[:50],
